@@ -68,6 +68,60 @@ class ComposeInit(Contract):
         raise NotImplementedError
 
 
+class ComposeInitAny(ComposeInit):
+    """the same contract for a directory listing of ARBITRARY length (witness rule for the search loop, pyvc/anycoll.py): when compose/ is
+    not preferred and the path is a local existing directory, the chosen directory is p/x for SOME listed x with p/x/metadata present,
+    or p itself when NO listed entry has metadata (stated over the arbitrary witness entry)."""
+
+    def __init__(self, src, T):
+        self.src, self.T, self.k = src, T, None
+        self.name = "productmd.compose.Compose.__init__[directory listing of arbitrary length]"
+        self.key = "meth:compose.Compose.__init__:any"
+
+    def setup(self, E):
+        from pyvc.anycoll import AnySet
+        p = SV(sym.Val.VStr(z3.Const("arg.compose_path", sym.S)))
+        E.assume(Not(sym.contains(p, "://")))
+        E.assume_prefix(p, "/")
+
+        def entry(E_, tag):
+            n = SV(sym.Val.VStr(E_.fresh("dir.entry.%s" % tag, sym.S)))
+            E_.assume(And(Not(sym.contains(n, "/")), Not(eq(n, ""))))
+            return n
+        listing = AnySet("listing", entry)
+        E.models.call_table[os.listdir] = lambda a, k: listing
+        return {"p": p, "listing": listing}
+
+    def post(self, E, st, out):
+        if out.kind == "raise":
+            return {"construction_never_fails_for_a_local_path": False}
+        o, p = out.value, st["p"]
+        got = o.fields["compose_path"]
+        pc = _join(E, p, "compose")
+        preferred = _exists(sym.sstr(_join(E, pc, "metadata/composeinfo.json")))
+        local = _exists(sym.sstr(p))
+        wit = [(kind, x) for kind, c, x in getattr(E.path, "witnesses", []) if c is st["listing"]]
+
+        def has_md(n):
+            return _exists(sym.sstr(_join(E, _join(E, p, n), "metadata")))
+        cl = {"construction_never_fails_for_a_local_path": True,
+              "compose_subdirectory_preferred": Implies(preferred, _veq(got, pc)),
+              "nothing_loaded_yet": all(o.fields.get(k) is None for k in ("_composeinfo", "_images", "_rpms", "_modules"))}
+        if not wit:
+            # the listing was not scanned: compose/ preferred, or not a local existing directory
+            cl["listing_scanned_iff_local_and_compose_not_preferred"] = Or(preferred, Not(local))
+            cl["otherwise_the_path_itself"] = Implies(Not(preferred), _veq(got, p))
+            return cl
+        kind, x = wit[-1]
+        cl["listing_scanned_iff_local_and_compose_not_preferred"] = And(Not(preferred), local)
+        if kind == "exit":
+            cl["legacy_subdirectory_with_metadata_chosen"] = And(has_md(x), _veq(got, _join(E, p, x)))
+        else:
+            # normal termination: NO entry has metadata (the arbitrary witness has none; an empty listing has no witness) and p is kept
+            cl["otherwise_the_path_itself"] = And(_veq(got, p), Not(has_md(x)) if x is not None else True)
+        return cl
+
+
 ACCESSORS = {"info": (["metadata/composeinfo.json"], ("composeinfo", "ComposeInfo"), "_composeinfo"),
              "images": (["metadata/images.json", "metadata/image-manifest.json"], ("images", "Images"), "_images"),
              "rpms": (["metadata/rpms.json", "metadata/rpm-manifest.json"], ("rpms", "Rpms"), "_rpms"),
@@ -219,4 +273,4 @@ class Accessor(Contract):
 
 
 def contracts(src, T):
-    return [ComposeInit(src, T, k) for k in (0, 1, 2)] + [Accessor(src, T, a) for a in ACCESSORS]
+    return [ComposeInit(src, T, k) for k in (0, 1, 2)] + [ComposeInitAny(src, T)] + [Accessor(src, T, a) for a in ACCESSORS]
